@@ -426,4 +426,61 @@ theorem Dasinh_dd (x y : ℝ) (hxy : x ≠ y) :
 theorem Dasinh_diag (x : ℝ) : Dasinh x x (hyp x) (hyp x) = 1 / hyp x := by
   simp [Dasinh, eqb_real, zero_real, one_real]
 
+/-- subtraction formula of `atanh u = ½ log((1+u)/(1−u))` on `(−1, 1)` -/
+theorem atanh_sub (a b : ℝ) (ha : |a| < 1) (hb : |b| < 1) :
+    Real.log ((1 + (a - b) / (1 - a * b)) / (1 - (a - b) / (1 - a * b))) =
+      Real.log ((1 + a) / (1 - a)) - Real.log ((1 + b) / (1 - b)) := by
+  obtain ⟨ha1, ha2⟩ := abs_lt.mp ha
+  obtain ⟨hb1, hb2⟩ := abs_lt.mp hb
+  have p1 : 0 < 1 + a := by linarith
+  have p2 : 0 < 1 - a := by linarith
+  have p3 : 0 < 1 + b := by linarith
+  have p4 : 0 < 1 - b := by linarith
+  have hab : 0 < 1 - a * b := by nlinarith [mul_pos p2 p3, mul_pos p1 p4]
+  have n1 : 1 + (a - b) / (1 - a * b) = (1 + a) * (1 - b) / (1 - a * b) := by field_simp; ring
+  have n2 : 1 - (a - b) / (1 - a * b) = (1 - a) * (1 + b) / (1 - a * b) := by field_simp; ring
+  have e : (1 + a) * (1 - b) / (1 - a * b) / ((1 - a) * (1 + b) / (1 - a * b)) = ((1 + a) / (1 - a)) / ((1 + b) / (1 - b)) := by
+    field_simp
+  rw [n1, n2, e, Real.log_div (by positivity) (by positivity)]
+
+/-- `Deatanhe` (oblate, `es = e > 0`, `_e2 = e²`) is the divided difference of `x ↦ e·atanh(e x)` where `|e x| < 1` -/
+theorem Deatanhe_dd_oblate (es x y : ℝ) (hes : 0 < es) (hx : |es * x| < 1) (hy : |es * y| < 1) (hxy : x ≠ y) :
+    Deatanhe (es ^ 2) es x y = (eatanhe x es - eatanhe y es) / (x - y) := by
+  have h2 : x - y ≠ 0 := sub_ne_zero.mpr hxy
+  unfold Deatanhe eatanhe
+  simp only [eqb_real, ltb_real, zero_real, one_real, atanh_real, h2, hes, decide_false, decide_true, Bool.not_false, if_true]
+  have earg : es * ((x - y) / (1 - es ^ 2 * x * y)) = (es * x - es * y) / (1 - es * x * (es * y)) := by
+    have : 1 - es ^ 2 * x * y = 1 - es * x * (es * y) := by ring
+    rw [this]; ring
+  rw [earg, atanh_sub (es * x) (es * y) hx hy]
+  ring
+
+example : (0 : ℝ) < 0.0818 ∧ |(0.0818 : ℝ) * 1| < 1 ∧ |(0.0818 : ℝ) * (1 / 2)| < 1 := by
+  refine ⟨by norm_num, ?_, ?_⟩ <;> rw [abs_lt] <;> constructor <;> norm_num
+
+/-- `Deatanhe` (prolate, `es = −√(−e²) ≤ 0`, `_e2 = −es²`) is the divided difference of `x ↦ −es·atan(es x)` where
+    `(es x)(es y) > −1` -/
+theorem Deatanhe_dd_prolate (es x y : ℝ) (hes : es ≤ 0) (hprod : -1 < es * x * (es * y)) (hxy : x ≠ y) :
+    Deatanhe (-(es ^ 2)) es x y = (eatanhe x es - eatanhe y es) / (x - y) := by
+  have h2 : x - y ≠ 0 := sub_ne_zero.mpr hxy
+  have hn : ¬ (0 < es) := not_lt.mpr hes
+  unfold Deatanhe eatanhe
+  simp only [eqb_real, ltb_real, zero_real, one_real, atan_real, h2, hn, decide_false, Bool.not_false, if_true,
+    Bool.false_eq_true, if_false]
+  have hadd : Real.arctan (es * x) - Real.arctan (es * y) = Real.arctan ((es * x - es * y) / (1 + es * x * (es * y))) := by
+    have h := Real.arctan_add (x := es * x) (y := -(es * y)) (by nlinarith)
+    rw [Real.arctan_neg] at h
+    have e : (es * x + -(es * y)) / (1 - es * x * -(es * y)) = (es * x - es * y) / (1 + es * x * (es * y)) := by
+      congr 1 <;> ring
+    rw [e] at h
+    linarith
+  have earg : es * ((x - y) / (1 - -(es ^ 2) * x * y)) = (es * x - es * y) / (1 + es * x * (es * y)) := by
+    have : 1 - -(es ^ 2) * x * y = 1 + es * x * (es * y) := by ring
+    rw [this]; ring
+  rw [earg, ← hadd]
+  ring
+
+example : (-(1 / 2) : ℝ) ≤ 0 ∧ (-1 : ℝ) < -(1 / 2) * 1 * (-(1 / 2) * (1 / 3)) := by
+  constructor <;> norm_num
+
 end GeoVerif.Props.C11
